@@ -53,6 +53,7 @@ class Model:
     ports: Tuple[Prt, ...]
     system: bool = False
     comp: str = 'VfComp'
+    externs: Tuple[Tuple[str, str], ...] = ()      # overrides of EXTERNS (twin models: same names, other content)
 
 
 I_A = Itf('VfIA', (Ev('e0', 'in'), Ev('o0', 'out')))
@@ -86,11 +87,13 @@ MODELS: List[Model] = [
           (Prt('p', 'provides', 'VfIA'), Prt('cfg', 'requires', 'VfIE', True), Prt('r', 'requires', 'VfIE'))),
     Model('no-ports', ('N',), (I_A,), ()),
     Model('only-requires', ('N',), (I_F, I_D), (Prt('sink', 'requires', 'VfIF'), Prt('void_', 'requires', 'VfID'))),
+    Model('notify-provides', ('N',), (I_F, I_A), (Prt('notify', 'provides', 'VfIF'), Prt('p', 'provides', 'VfIA'))),
     Model('system', ('N',), (I_A, I_B), (Prt('p', 'provides', 'VfIB'), Prt('r', 'requires', 'VfIA')), system=True),
     Model('mc-first', ('N',), (I_C, I_A),
           (Prt('api', 'provides', 'VfIC'), Prt('other', 'provides', 'VfIA'), Prt('r', 'requires', 'VfIA'))),
     Model('mc-last', ('N', 'M'), (I_A, I_C2),
-          (Prt('other', 'provides', 'VfIA'), Prt('ctl', 'provides', 'VfIC2'), Prt('r', 'requires', 'VfIA'))),
+          # 'ct' is a proper prefix of the multi-client port's name 'ctl'
+          (Prt('ct', 'provides', 'VfIA'), Prt('ctl', 'provides', 'VfIC2'), Prt('r', 'requires', 'VfIA'))),
     Model('mc-only', (), (I_C,), (Prt('Api', 'provides', 'VfIC'),)),
     Model('three-requires', ('N',), (I_A, I_F),
           (Prt('p', 'provides', 'VfIA'), Prt('motorA', 'requires', 'VfIA'), Prt('sensor', 'requires', 'VfIF'),
@@ -118,11 +121,30 @@ MODELS_EXTRA: List[Model] = [
            Prt('r', 'requires', 'VfIG'))),
     Model('system-global', (), (I_G,), (Prt('g', 'provides', 'VfIG'), Prt('h', 'requires', 'VfIG')), system=True),
 ]
+# twin models: identical names / scopes as a base model but different content behind them; a build of
+# the twin after the base model (same process) must not pick up anything from the earlier build
+I_B_TWIN = Itf('VfIB', (Ev('e1', 'in', 'Res', (('a', 'in', 'TInt'), ('b', 'out', 'TBlob'))),
+                      Ev('o1', 'out', 'void', (('a', 'in', 'TInt'),)),
+                      Ev('e2', 'in', 'void', (('s', 'in', 'TStr'), ('extra', 'in', 'TInt')))), has_res=True)
+I_C_TWIN = Itf('VfIC', (Ev('Claim', 'in', 'Res', (('prio', 'in', 'TInt'),)), Ev('Done', 'out'),
+                      Ev('Release', 'in', 'void', (('bye', 'out', 'TStr'),)),
+                      Ev('Work', 'in', 'Res', (('a', 'in', 'TInt'),)),
+                      Ev('Fail', 'out', 'void', (('x', 'in', 'TBlob'),))), has_res=True)
+TWINS: List[Tuple[str, Model]] = [
+    ('prov+req', Model('prov+req~twin', ('N', 'M'), (I_B_TWIN,),
+                       (Prt('api', 'provides', 'VfIB'), Prt('dev', 'requires', 'VfIB')),
+                       externs=(('TInt', 'double'), ('TStr', 'const char*')))),
+    ('mc-first', Model('mc-first~twin', ('N',), (I_C_TWIN, I_A),
+                       (Prt('api', 'provides', 'VfIC'), Prt('other', 'provides', 'VfIA'), Prt('r', 'requires', 'VfIA')))),
+    ('one-provides', Model('one-provides~twin', ('N',), (I_A,), (Prt('p', 'provides', 'VfIA'),), comp='VfComp',
+                           externs=(('TInt', 'long'),))),
+]
 MODELS_ALL = MODELS + MODELS_EXTRA
 MODEL_BY_LABEL = {m.label: i for i, m in enumerate(MODELS_ALL)}
 
 # multi-client settings that fit a model: label -> (port, claim, granting value, release)
 MC_FOR = {'mc-middle': ('lock', 'Lock', 'NotOk', 'Unlock'),
+          'mc-first~twin': ('api', 'Claim', 'Ok', 'Release'),
           'mc-first': ('api', 'Claim', 'Ok', 'Release'),
           'mc-last': ('ctl', 'Acquire', 'Busy', 'GiveBack'),
           'mc-only': ('Api', 'Claim', 'Ok', 'Release')}
@@ -131,7 +153,9 @@ MC_FOR = {'mc-middle': ('lock', 'Lock', 'NotOk', 'Unlock'),
 def model_doc(m: Model) -> dict:
     """Externs and (when needed) nothing else live in the global namespace; interfaces and the
     encapsulee live in m.ns."""
-    elements = [dg.extern([n], v) for n, v in EXTERNS.items()]
+    ext = dict(EXTERNS)
+    ext.update(dict(m.externs))
+    elements = [dg.extern([n], v) for n, v in ext.items()]
     inner = []
     for itf in m.itfs:
         events = [dg.event(e.name, e.direction, [e.reply],
@@ -251,3 +275,4 @@ def extra_cases() -> List[Tuple[Case, PortsCfg]]:
 
 EXTRA = extra_cases()
 ALL_CASES = VALID + EXTRA
+TWIN_FCS = {m.label: dg.parse(model_doc(m)) for _b, m in TWINS}
